@@ -959,6 +959,7 @@ class Gen:
         hdr = '%s %s(%s)' % (cg.ctype(f['ret']), cg.gname(f['name']), ', '.join(ps) if ps else 'void')
         pnames = set(fg.lname(pn) for _, pn, _ in f['params'] if pn)
         out = [hdr + ' {']
+        if f['name'] in self.opts.entry: out.append('  verif_run_global_ctors();')
         for d, t in fg.decls.items():
             if d in pnames: continue
             out.append('  %s %s;' % (t, d))
@@ -1885,7 +1886,13 @@ def main():
     overrides = set(opts.override) | set(opts.unreachable)
     for e in opts.entry:
         if e not in mod.funcs: raise SystemExit('entry %s not in module' % e)
-    live = reachable(mod, list(opts.entry) + list(opts.root), overrides)
+    # static initialisers (llvm.global_ctors) run before every entry point, as they do before main() natively
+    gctors = []
+    g = mod.globals.get('llvm.global_ctors')
+    if g and g['init']:
+        toks, i = g['init']
+        gctors = [v[1:].strip('"') for k, v in toks[i:] if k == 'glob' and v[1:].strip('"') in mod.funcs]
+    live = reachable(mod, list(opts.entry) + list(opts.root) + gctors, overrides)
     gen = Gen(mod, opts)
     gen.live = live; gen.overrides = overrides
     # string globals for label resolution
@@ -1895,7 +1902,7 @@ def main():
             if toks[i][0] == 'cstr': gen.strings[name] = cstr_bytes(toks[i][1])
     cg = gen.cg
     # naming: functions keep their (sanitised) names
-    fn_protos = []; fn_bodies = []; externals = []; translated = []
+    fn_protos = ['void verif_run_global_ctors(void);']; fn_bodies = []; externals = []; translated = []
     names = [n for n in mod.funcs if n in live]
     for n in names: cg.gname(n)
     for n in mod.globals:
@@ -1942,6 +1949,9 @@ def main():
         alias_defs.append('#define %s %s' % (cg.gname(n), cg.gname(tgt)))
     fwdl, typedefs, tlines = cg.emit_types()
     # gen may register types lazily during function generation; emit_types after everything
+    ctor_fn = 'static int verif_ctors_done;\nvoid verif_run_global_ctors(void) {\n  if (verif_ctors_done) return;\n  verif_ctors_done = 1;\n' + \
+              ''.join('  %s();\n' % cg.gname(n) for n in gctors) + '}\n'
+    fn_bodies.append(ctor_fn)
     with open(opts.o, 'w') as o:
         o.write('/* generated by ir2c.py from %s -- do not edit */\n' % opts.ll)
         o.write(PRELUDE)
